@@ -110,6 +110,7 @@ fn park_ok_if_unparked(b: &SyncBlocker, _t: Option<Duration>) -> Result<(), Park
 }
 
 //@ obligation: C10.5c
+//@ property: C10 C09
 //@ kind: K3
 //@ complete: yes
 //@ functions: SyncFlag::wait_timeout_impl
